@@ -172,6 +172,24 @@ def epoch_seconds(date):
     return (date - epoch).total_seconds()
 
 
+def text_to_date(text):
+    # dateutil takes what a text leaves out from a default date-time - today, if none is given:
+    # "March 2020" then meant another day on every day of the month (and no date at all on the
+    # 31st), and "10:30" carried the date of the evaluation.  A day or month left out is the
+    # first one, a year left out is the current year (as in a sheet), and a time of day with no
+    # date at all is that time on the day TIME() uses
+    first = datetime.datetime(datetime.date.today().year, 1, 1)
+    date = to_date(text, default=first)
+    if date.date() == first.date():
+        try:
+            other = to_date(text, default=first.replace(month=2, day=2))
+        except (ValueError, OverflowError):
+            other = date
+        if other.date() != date.date():  # neither year, month nor day came from the text
+            date = datetime.datetime.combine(date_1900, date.timetz())
+    return date
+
+
 def parse_date(date):
     if isinstance(date, error.XLError):
         return date
@@ -190,7 +208,7 @@ def parse_date(date):
         return epoch + datetime.timedelta(seconds=(epoch_seconds(date_1900) + (date - 2) * 86400))
     if isinstance(date, string_types):
         try:
-            date = to_date(date)
+            date = text_to_date(date)
             return date.replace(tzinfo=None) if date.tzinfo is not None else date
         except (ValueError, OverflowError):  # dateutil overflows on "99999999999999999999 1"
             pass
